@@ -93,7 +93,7 @@ func vfHBuildCases() []vfHCase {
 	reg := messages.VfRegistry()
 	var names []string
 	for _, n := range verifrt.SortedKeys(reg) {
-		if strings.HasPrefix(n, "Test") || strings.HasPrefix(n, "test") {
+		if strings.HasPrefix(n, "Test") || strings.HasPrefix(n, "test") || n == "vfPoisonMsg" {
 			continue
 		}
 		names = append(names, n)
